@@ -141,6 +141,99 @@ def tour(rng, n_cases, check, note):
                 continue
             check(name, r, None)
             note("ok:" + name)
+    # ---- operands whose wire types come from different families (named rigid / monoidal
+    # types, PRO, Dim, bit / qubit): every combination is either refused or well-typed
+    def mixers():
+        x, y = rigid.Ty('x'), rigid.Ty('y')
+        mx, my = monoidal.Ty('x'), monoidal.Ty('y')
+        n = rng.randint(0, 2)
+        makers_ = [lambda: rigid.Box('f', x, y), lambda: rigid.Box('f2', x @ y, x), lambda: rigid.Id(x),
+                   lambda: rigid.Cup(x, x.r), lambda: rigid.Cap(x.r, x),
+                   lambda: rigid.Box('g', rigid.PRO(1), rigid.PRO(1)), lambda: rigid.Box('g2', rigid.PRO(2), rigid.PRO(1)),
+                   lambda: rigid.Id(rigid.PRO(n)), lambda: rigid.Box('h', rigid.PRO(1), y),
+                   lambda: rigid.Box('h2', x, rigid.PRO(1)),
+                   lambda: monoidal.Box('m', mx, my), lambda: monoidal.Id(mx), lambda: monoidal.Id(monoidal.PRO(n)),
+                   lambda: monoidal.Box('p', monoidal.PRO(1), monoidal.PRO(2)),
+                   lambda: monoidal.Box('q', monoidal.PRO(1), my),
+                   zdiag, lambda: zx.Z(1, 2), lambda: zx.X(2, 1, 0.5), lambda: zx.Id(n), lambda: zx.H,
+                   tdiag, lambda: tensor.Id(tensor.Dim(2)),
+                   lambda: tensor.Box('t', tensor.Dim(2), tensor.Dim(2, 2), [1, 0, 0, 0, 0, 0, 0, 1]),
+                   cdiag, lambda: circuit.Id(circuit.qubit), lambda: gates.H, lambda: gates.Ket(0),
+                   lambda: circuit.Id(circuit.bit)]
+        out = []
+        for mk_ in makers_:
+            try:
+                out.append(mk_())
+            except Exception as exc:   # noqa: a constructor may refuse mixed types
+                note("refused:" + type(exc).__name__)
+        return out
+    t_box = tensor.Box('t', tensor.Dim(2), tensor.Dim(2, 2), [1, 0, 0, 0, 0, 0, 0, 1])
+    corpus = [(t_box, monoidal.Box('p', monoidal.PRO(1), monoidal.PRO(2)), tensor.Id(tensor.Dim(2, 2))),   # F40
+              (tensor.Id(tensor.Dim(2)), zx.X(2, 1, 0.5), tensor.Id(tensor.Dim(2))),
+              (rigid.Id(rigid.PRO(1)), rigid.Box('f', rigid.Ty('x'), rigid.Ty('y')), rigid.Id(rigid.Ty('y'))),
+              (zx.Z(1, 2), rigid.Box('f', rigid.Ty('x'), rigid.Ty('y')), zx.Id(2))]
+    for k in range(6 * n_cases):
+        a, b, c = corpus[k] if k < len(corpus) else (rng.choice(mixers()) for _ in range(3))
+        for name, f in [("mix:tensor", lambda: a @ b), ("mix:tensor3", lambda: a @ b @ c),
+                        ("mix:tensor-then", lambda: (a @ b) >> c), ("mix:then-tensor", lambda: (a >> b) @ c),
+                        ("mix:then", lambda: a >> b), ("mix:tensor-dagger", lambda: (a @ b)[::-1]),
+                        ("mix:tensor-then-swap", lambda: (a @ b) >> type(b).swap(b.cod[:1], a.cod[:1])
+                         if hasattr(type(b), "swap") else None)]:
+            try:
+                r = f()
+            except Exception as exc:   # noqa: refusals are fine
+                if type(exc).__name__ == "VerifHookError":
+                    check(name, None, exc)
+                note("refused:" + type(exc).__name__)
+                continue
+            if hasattr(r, "layers"):
+                check(name, r, None)
+                note("ok:" + name)
+    # ---- biclosed: applications and compositions fed with matching and nearly matching types
+    # (one side of one slash changed): refused or well-typed
+    def bty(depth):
+        if depth == 0 or rng.random() < 0.35:
+            return biclosed.Ty(rng.choice(["x", "y", "z"]))
+        l, r = bty(depth - 1), bty(depth - 1)
+        return (l << r) if rng.random() < 0.5 else (l >> r)
+
+    def perturb(t, depth=2):
+        if isinstance(t, (biclosed.Over, biclosed.Under)) and rng.random() < 0.8:
+            side = rng.random() < 0.5
+            l = perturb(t.left, depth - 1) if side else t.left
+            r = t.right if side else perturb(t.right, depth - 1)
+            return type(t)(l, r)
+        return bty(1)
+    for _ in range(6 * n_cases):
+        a, b, c = bty(2), bty(2), bty(1)
+        kind = rng.choice(["fa", "ba", "fc", "bc"])
+        if kind == "fa":
+            want, rule = [a << b, b], lambda: biclosed.FA(a << b)
+        elif kind == "ba":
+            want, rule = [a, a >> b], lambda: biclosed.BA(a >> b)
+        elif kind == "fc":
+            want, rule = [a << b, b << c], lambda: biclosed.FC(a << b, b << c)
+        else:
+            want, rule = [a >> b, b >> c], lambda: biclosed.BC(a >> b, b >> c)
+        fed = list(want)
+        if rng.random() < 0.7:
+            k = rng.randrange(2)
+            fed[k] = perturb(fed[k])
+        w0, w1 = biclosed.Box('w0', biclosed.Ty(), fed[0]), biclosed.Box('w1', biclosed.Ty(), fed[1])
+        for name, f in [("biclosed:apply", lambda: w0 @ w1 >> rule()),
+                        ("biclosed:apply-id", lambda: biclosed.Id(fed[0] @ fed[1]) >> rule()),
+                        ("biclosed:apply-dagger", lambda: (w0 @ w1 >> rule())[::-1]),
+                        ("biclosed:mk", lambda: biclosed.Diagram(fed[0] @ fed[1], rule().cod, [rule()], [0]))]:
+            try:
+                r = f()
+            except Exception as exc:   # noqa
+                if type(exc).__name__ == "VerifHookError":
+                    check(name, None, exc)
+                note("refused:" + type(exc).__name__)
+                continue
+            if hasattr(r, "layers"):
+                check(name, r, None)
+                note("ok:" + name)
     # cat arrows: typing of plain arrows (no layers): dom/cod chain
     for _ in range(n_cases):
         d = adiag()
